@@ -39,6 +39,12 @@ CHECKS = {
  "C12": ("exploration", "runtime monitor: direct bucket-rule reference vs Histogram counts and text/JSON renderings incl. no-result case; bucket specs through UnmarshalText and the real CLI",
          "5013 (quick) / 400023 (thorough) histograms (1..20 bounds; latencies on, 1ns below and 1ns above every bound; 203+ with no result added) and 2006 / 100006 textual bucket specifications (spacing, all units, compound values) are checked: Counts equal the reference vector, Total == sum == n, text and JSON renderings show exactly these counts (also empty), parsed bounds are preserved with a zero bound prepended iff the first is positive; same through `vegeta report -type=hist[...]` and `-type=json -buckets`.",
          "Row/key order and the percentage/bar columns are not judged.", "5/C12"),
+ "C14": ("exploration", "runtime monitor: grammar-driven generator that emits target files together with the targets they describe; successive targeter calls compared with the description, all earlier targets and the defaults re-compared against snapshots after every later call",
+         "20026 (quick) / 300026 (thorough) generated http- and JSON-format target files (request lines, case-preserved repeated headers incl. keys of the defaults, @file bodies in a sandbox, blank lines, comments in every legal position, with/without final newline; defaults with and without spare slice capacity, default body present/absent). Oracle: the i-th call returns the i-th described target (defaults first, own values appended, default body only when none), then ErrNoTargets; every earlier target and the defaults map (incl. the [:cap] contents of its slices) are deep-compared with snapshots after every later call; NewJSONTargetEncoder output decodes back; ReadAllTargets agrees with lazy decoding. Violating cases are shrunk structurally so that signatures are stable.",
+         "Well-formedness is what the README grammar describes; a JSON file whose last object lacks the newline, CRLF line ends and header lines directly followed by a request line are outside the generator (stated in the evidence).", "5/C14"),
+ "C15": ("exploration", "runtime monitor: recorded concurrent draw histories (1..64 callers) checked for exactly-once/no-torn/exhaustion-afterwards and, for the static targeter, linearizability against the rotation model with porcupine; whole workload repeated under the Go race detector",
+         "9600 (quick) / 120000 (thorough) histories, half under -race: 1..64 goroutines draw from one http/JSON/static targeter (barrier start, several pacing styles). Stream targeters: multiset of returned targets == input (unique id per target ties URL, headers and body together, so torn targets are visible), no successful draw begins after an ErrNoTargets draw returned. Static targeter: per-target counts within floor/ceil(n/k) and short histories linearizable w.r.t. the sequential rotation model (porcupine; Unknown => inconclusive). Race-log blocks with a vegeta frame and abnormal child deaths are violations.",
+         "Interleavings are those the Go scheduler produces on 16 cores; evidence reports how many draws really overlapped.", "5/C15"),
 }
 NOT_BUILT_REASON = "check not built yet in this revision (designed in DESIGN.md section 5; runtime monitoring applies)"
 ALL = ["C%02d" % i for i in range(1, 21)]
